@@ -540,11 +540,14 @@ namespace chaiscript::json {
         return t_value;
       };
 
+      // mantissa and power of ten are combined in long double and rounded once, like floating literals in scripts are
       if (isDouble) {
-        return JSON(finite((isNegative ? -1 : 1) * chaiscript::parse_num<double>(val) * std::pow(10, exp)));
+        return JSON(finite(static_cast<double>((isNegative ? -1 : 1) * chaiscript::parse_num<long double>(val)
+                                               * std::pow(static_cast<long double>(10), static_cast<long double>(exp)))));
       } else {
         if (!exp_str.empty()) {
-          return JSON(finite((isNegative ? -1 : 1) * static_cast<double>(chaiscript::parse_num<std::int64_t>(val)) * std::pow(10, exp)));
+          return JSON(finite(static_cast<double>((isNegative ? -1 : 1) * static_cast<long double>(chaiscript::parse_num<std::int64_t>(val))
+                                                 * std::pow(static_cast<long double>(10), static_cast<long double>(exp)))));
         } else {
           return JSON((isNegative ? -1 : 1) * chaiscript::parse_num<std::int64_t>(val));
         }
